@@ -184,6 +184,39 @@ fn ordering_at(lat: f64, lon: f64, d: NaiveDate, case: &mut Case) -> Result<(), 
     if !closed_at_midnight {
         return Err(format!("({lat:.4}, {lon:.4}) [{tz}]: `sunrise-sunset` is not closed at solar midnight {midnight_dt}: {describe}"));
     }
+    // a span between two events is open between them, wherever local midnight falls (at 58-60
+    // degrees north around the June solstice dusk comes after local midnight): probe the middle
+    // of the twilights
+    let local_at = |m: i64| -> Option<chrono::DateTime<chrono_tz::Tz>> {
+        let naive = noon_local.date().and_hms_opt(0, 0, 0).unwrap() + Duration::minutes(m);
+        tz.from_local_datetime(&naive).single()
+    };
+    let probes: [(&str, i64, bool); 6] = [
+        ("dawn-dusk", (sunset + dusk) / 2, true),
+        ("dawn-dusk", (dawn + sunrise) / 2, true),
+        ("sunset-dusk", (sunset + dusk) / 2, true),
+        ("sunrise-dusk", (sunset + dusk) / 2, true),
+        ("sunrise-sunset", (sunset + dusk) / 2, false),
+        ("dawn-sunrise", (dawn + sunrise) / 2, true),
+    ];
+    // (only where the zone keeps one offset from a day and a half before to a day and a half after
+    // solar noon: local times of day of neighbouring dates are otherwise not comparable)
+    let steady = (-6..=6).all(|k| crate::props::c09::offset_at(tz, noon_utc + Duration::hours(6 * k)) == crate::props::c09::offset_at(tz, noon_utc));
+    for (expr, m, open) in probes {
+        if !steady {
+            break;
+        }
+        let strictly_inside = (sunset < m && m < dusk) || (dawn < m && m < sunrise);
+        let (true, Some(at)) = (strictly_inside, local_at(m)) else { continue };
+        let oh = OpeningHours::parse(expr).unwrap().with_context(ctx.clone());
+        let got = guard(|| oh.is_open(at)).map_err(|p| format!("is_open panicked: {p}"))?;
+        if got != open {
+            return Err(format!("({lat:.4}, {lon:.4}) [{tz}]: `{expr}` is {} at {at}, in the middle of a twilight: {describe}", if got { "open" } else { "not open" }));
+        }
+        if m >= 1440 || m < 0 {
+            case.label("twilight_across_local_midnight");
+        }
+    }
     let zone_offset_min = i64::from(chrono::Offset::fix(noon_dt.offset()).local_minus_utc()) / 60;
     let solar_offset_min = (4.0 * lon) as i64;
     case.nontrivial = lat.abs() > 40.0 || (zone_offset_min - solar_offset_min).abs() > 90;
@@ -401,7 +434,7 @@ pub fn property() -> Property {
             },
             SubCheck {
                 name: "ordering",
-                rule: "coordinates with |lat| <= 60 (uniform on the sphere band / 23 cities / longitudes at the antimeridian and zone borders) x date 1900..2100, zone inferred by Context::from_coords: the four event times are read from the schedules of `event-24:00`, re-anchored into solar noon +- 12 h and must satisfy dawn < sunrise < solar noon < sunset < dusk as instants, solar noon (computed by the harness from longitude and the equation of time, converted with chrono-tz) at least 30 min inside sunrise..sunset and within 10 min of its middle; `sunrise-sunset` open at solar noon and closed 12 h later; on days during which the zone offset changes the same checks are made on the instants the local event times denote (unique instant with that wall-clock time on the right side of solar noon, else undecided); non-trivial = |lat| > 40 or zone offset more than 90 min away from solar time, or an offset-change day that was decided",
+                rule: "coordinates with |lat| <= 60 (uniform on the sphere band / 23 cities / longitudes at the antimeridian and zone borders) x date 1900..2100, zone inferred by Context::from_coords: the four event times are read from the schedules of `event-24:00`, re-anchored into solar noon +- 12 h and must satisfy dawn < sunrise < solar noon < sunset < dusk as instants, solar noon (computed by the harness from longitude and the equation of time, converted with chrono-tz) at least 30 min inside sunrise..sunset and within 10 min of its middle; `sunrise-sunset` open at solar noon and closed 12 h later; `dawn-dusk`, `sunset-dusk`, `sunrise-dusk`, `dawn-sunrise` open and `sunrise-sunset` closed in the middle of the twilights (which cross local midnight at 58-60 degrees around the June solstice); on days during which the zone offset changes the same checks are made on the instants the local event times denote (unique instant with that wall-clock time on the right side of solar noon, else undecided); non-trivial = |lat| > 40 or zone offset more than 90 min away from solar time, or an offset-change day that was decided",
                 f: ordering,
                 text_f: Some(ordering_text),
                 cases_quick: 40_000,
